@@ -217,37 +217,34 @@ def check_verification(repo: Repo, rep: Report, rule: str):
     from sa.pathsem import new_path, out_cmds
     ru, st = repo["svg_reuse"], repo["svg_types"]
     rep.saw("svg_reuse._try_affine", "svg_reuse._apply_affine", "svg_types.SVGShape.almost_equals")
-    # ---- _try_affine
+    # ---- _try_affine: whatever helpers it uses, what reaches the outline comparison is the image of every command of (a copy of) s1 under the
+    # candidate, compared with s2 under the caller's tolerance, and the answer of that comparison is the answer
     F = "svg_reuse._try_affine"
     fn = closure_of(repo, "svg_reuse", "_try_affine")
     seen = []
+    calls = []
 
     def setup(it):
         install_path_hooks(it)
-        it.hooks[("svg_reuse", "_apply_affine")] = lambda i, a, k: Tok("image", a[0], a[1])
+
+        def cb(i, a, k):
+            calls.append((a[0], a[3], tuple(a[4])))
+            return ((a[3], tuple(RF.sym(f"img[{x!r}]") for x in a[4])),)
+        it.hooks[("svg_reuse", "_affine_callback")] = cb
 
         def almost(i, a, k):
             ans = i.decide(Cond("oracle-same-outline", (len(seen),)))
-            seen.append((a[0], a[1], a[2], ans))
+            seen.append((a[0], a[1], a[2] if len(a) > 2 else k.get("tolerance"), ans))
             return ans
         it.hooks[("svg_types", "SVGShape.almost_equals")] = almost
 
-        class _ImageShape(Tok):
-            pass
-
-    # the image token must answer almost_equals: give Tok that method through the hook on attribute access
-    def tok_getattr(self, it, attr):
-        if attr == "almost_equals":
-            hook = it.hooks[("svg_types", "SVGShape.almost_equals")]
-            return PyCallable(lambda i, a, k: hook(i, [self] + list(a), k))
-        return Tok._orig_getattr(self, it, attr)
-
-    if not hasattr(Tok, "_orig_getattr"):
-        Tok._orig_getattr = Tok.sym_getattr
-        Tok.sym_getattr = tok_getattr
-    outs = explore(repo, fn, [], fresh_args=lambda: ([AffTok.atom("A"), Tok("shape", "s1"), Tok("shape", "s2"), RF.sym("tolerance"), "comment"], {}), setup=setup)
+    cmds = [("M", (RF.sym("x0"), RF.sym("y0"))), ("l", (RF.sym("x1"), RF.sym("y1"))), ("c", tuple(RF.sym(f"c{i}") for i in range(6))), ("z", ())]
+    cmds2 = [("M", (RF.sym("u0"), RF.sym("u1"))), ("l", (RF.sym("u2"), RF.sym("u3"))), ("c", tuple(RF.sym(f"w{i}") for i in range(6))), ("z", ())]
+    outs = explore(repo, fn, [], fresh_args=lambda: ([AffTok.atom("A"), new_path(repo, cmds), new_path(repo, cmds2), RF.sym("tolerance"), "comment"], {}), setup=setup)
     bad = None
     answers = set()
+    if len(seen) != len(outs):
+        bad = f"the outline comparison is made {len(seen)} times on {len(outs)} paths; exactly one comparison decides the answer"
     for o, s in zip(outs, seen):
         if o.undecided:
             raise AnalysisError(f"{F}: abstract machine cannot interpret this code: {o.undecided}")
@@ -256,48 +253,23 @@ def check_verification(repo: Repo, rep: Report, rule: str):
             continue
         recv, other, tol, ans = s
         answers.add(ans)
-        if repr(recv) != "image(Aff[A], shape('s1'))" or repr(other) != "shape('s2')" or repr(tol) != "tolerance":
-            bad = f"compares {recv!r} with {other!r} under {tol!r}; the image of s1 under the candidate must be compared with s2 under the caller's tolerance"
-        if o.value is not ans and o.value != ans:
+        got = out_cmds(recv) if hasattr(recv, "f") else None
+        if got is None or [c for c, _ in got] != [c for c, _ in cmds] or any(tuple(repr(x) for x in a_) != tuple(f"img[{x!r}]" for x in b_) for (_, a_), (_, b_) in zip(got, cmds)):
+            bad = f"the outline compared with s2 is {got!r}; it must be s1 with every command replaced by its image under the candidate"[:300]
+        elif other is not o.args[2]:
+            bad = "the image of s1 is not compared with s2"
+        elif repr(tol) != "tolerance":
+            bad = f"the comparison uses the tolerance {tol!r}, not the caller's"
+        elif recv is o.args[1] or out_cmds(o.args[1]) != [(c, tuple(a_)) for c, a_ in cmds]:
+            bad = "s1 itself is modified (the search goes on with the original s1)"
+        elif o.value is not ans and o.value != ans:
             bad = f"returns {o.value!r} when the comparison says {ans}"
-    if bad or answers != {True, False} or len(seen) != len(outs):
-        rep.fail(rule, F, "_apply_affine(affine, s1).almost_equals(s2, tolerance)", bad or "the verification does not depend on one outline comparison", ru, ru.functions.get("_try_affine"))
+    if not bad and (len(calls) < len(cmds) or any(repr(c[0]) != "Aff[A]" for c in calls)):
+        bad = f"_affine_callback is called {len(calls)} times with {sorted({repr(c[0]) for c in calls})}; once per command with the candidate is expected"
+    if bad or answers != {True, False}:
+        rep.fail(rule, F, "image of s1 under the candidate .almost_equals(s2, tolerance)", bad or "the verification does not depend on one outline comparison", ru, ru.functions.get("_try_affine"))
     else:
-        rep.ok(rule, F, "answers image(candidate, s1).almost_equals(s2, tolerance), both ways", True)
-    # ---- _apply_affine
-    F = "svg_reuse._apply_affine"
-    fn = closure_of(repo, "svg_reuse", "_apply_affine")
-    calls = []
-
-    def setup2(it):
-        install_path_hooks(it)
-
-        def cb(i, a, k):
-            calls.append((a[0], a[3], tuple(a[4])))
-            return ((a[3], tuple(RF.sym(f"img[{x!r}]") for x in a[4])),)
-        it.hooks[("svg_reuse", "_affine_callback")] = cb
-
-    cmds = [("M", (RF.sym("x0"), RF.sym("y0"))), ("l", (RF.sym("x1"), RF.sym("y1"))), ("c", tuple(RF.sym(f"c{i}") for i in range(6))), ("z", ())]
-    outs = explore(repo, fn, [], fresh_args=lambda: ([AffTok.atom("A"), new_path(repo, cmds)], {}), setup=setup2)
-    bad = None
-    for o in outs:
-        if o.undecided:
-            raise AnalysisError(f"{F}: abstract machine cannot interpret this code: {o.undecided}")
-        if o.raised:
-            bad = f"raises {o.raised}"
-            continue
-        got = out_cmds(o.value)
-        if [c for c, _ in got] != [c for c, _ in cmds] or any(a and not all(repr(x).startswith("img[") for x in a) for _, a in got):
-            bad = f"the image is {got!r}: every command of the shape must be replaced by what _affine_callback returns for it"[:300]
-        if o.value is o.args[1] or out_cmds(o.args[1]) != [(c, tuple(a)) for c, a in cmds]:
-            bad = "the shape itself is modified (the search goes on with the original s1)"
-    n_cb = len(calls)
-    if not bad and (n_cb < len(cmds) or any(repr(c[0]) != "Aff[A]" for c in calls)):
-        bad = f"_affine_callback is called {n_cb} times with {sorted({repr(c[0]) for c in calls})}; once per command with the candidate is expected"
-    if bad:
-        rep.fail(rule, F, "s_prime.walk(lambda *args: _affine_callback(affine, *args))", bad, ru, ru.functions.get("_apply_affine"))
-    else:
-        rep.ok(rule, F, "a copy of the shape, every command sent through _affine_callback with the candidate", True)
+        rep.ok(rule, F, "answers (s1 with every command sent through _affine_callback with the candidate).almost_equals(s2, tolerance), both ways; s1 untouched", True)
     # ---- almost_equals
     F = "svg_types.SVGShape.almost_equals"
     fn = method_of(repo, "svg_types", "SVGShape", "almost_equals")
